@@ -67,7 +67,7 @@ pub fn property() -> Property {
     }
     Property {
         id: "C04",
-        rule: "Plans of add/add_all/rm(contains ctx)/rm_all(read ctx) edits built from real reads at 2-4 editing replicas (+0-1 observer), 3 members, 4-28 steps, deliveries under causal or per-actor (FIFO, newest-first biased) order, duplicates, merges and stale-snapshot merges; after EVERY step the affected replica's read().val, contains(m).val/.rm_clock for every member, iter() and the set clock are compared with the dot-store specification computed from the replica's knowledge set. Non-trivial = the history contains a remove whose context covers another replica's add of member m AND an add of m the remover had not seen (concurrent or later), and some replica knows both (the add-wins situation); distinct = distinct Plan hash.".into(),
+        rule: "Plans of add/add_all/rm(contains ctx)/rm_all(read ctx) edits built from real reads at 2-4 editing replicas (+0-1 observer), 3 members (and, in a quarter-budget second set of jobs, 16 members: sets and remove batches of 6-16 elements), 4-28 steps, deliveries under causal or per-actor (FIFO, newest-first biased) order, duplicates, merges and stale-snapshot merges; after EVERY step the affected replica's read().val, contains(m).val/.rm_clock for every member, iter() and the set clock are compared with the dot-store specification computed from the replica's knowledge set. Non-trivial = the history contains a remove whose context covers another replica's add of member m AND an add of m the remover had not seen (concurrent or later), and some replica knows both (the add-wins situation); distinct = distinct Plan hash.".into(),
         assumptions: vec![
             "each actor is used at exactly one replica; every op is built through the API from a real read and applied at its origin first".into(),
             "delivery respects per-actor issue order (the documented Orswot contract)".into(),
